@@ -303,6 +303,12 @@ def run(ctx):
     ctx.verify(cs.dispatch_engine(), cs.VERIFY_DISPATCH, min_obligations={c.key: 8 for c in cs.VERIFY_DISPATCH})
     ctx.verify(cs.attr_engine(), cs.VERIFY_ATTR, min_obligations={cs.VERIFY_ATTR[0].key: 30})
     ctx.verify(cs.named_engine(), cs.VERIFY_NAMED, min_obligations={c.key: 4 for c in cs.VERIFY_NAMED})
+    key, obs, info = cs.sim_add_obligations()
+    for u in info.get("unsupported", []):
+        ctx.unsupported.append((key, u))
+    if len(obs) < 10 and not info.get("unsupported"):
+        ctx.checker_errors.append(f"only {len(obs)} obligations for Sim.add")
+    ctx.discharge(obs, key + " [attribute loop body]", info)
     ctx.assumptions.append("export(): the loop `for attr in self.sim.attrs: self.export_attr(attr)` visits the attributes "
                            "in order (read off the source); with export_attr's contract (one entry appended to exactly "
                            "one list, the others untouched) the three lists hold one entry per attribute in the "
